@@ -75,6 +75,9 @@ func (e *Env) call(x *ast.CallExpr) Value {
 	sig := fn.Type().(*types.Signature)
 	args := e.evalArgs(x, sig)
 	key := funcKey(fn)
+	if v, ok := e.bytesBuiltin(key, x, args, tv.Type); ok {
+		return v
+	}
 	if fc, ok := e.w.Cs.Funcs[key]; ok {
 		return e.callContract(fc, key, sig, recv, args, x.Pos(), tv.Type)
 	}
@@ -444,7 +447,22 @@ func (e *Env) callContract(fc *FuncContract, key string, sig *types.Signature, r
 		for _, a := range actuals {
 			ts = append(ts, e.box(a))
 		}
-		return e.pureApp(key, sig, ts)
+		res := e.pureApp(key, sig, ts)
+		pn := map[string]Value{}
+		for n, v := range names {
+			pn[n] = v
+		}
+		pn["result"] = res
+		if len(fc.Results) == 1 && fc.Results[0] != "_" {
+			pn[fc.Results[0]] = res
+		}
+		qc := &specCtx{e: e, names: pn, bound: map[string]*Term{}, pkg: calleePkg}
+		for _, cl := range fc.Clauses {
+			if cl.Kind == "ensures" {
+				e.assume(qc.boolTerm(cl.Expr))
+			}
+		}
+		return res
 	}
 
 	pctx := &specCtx{e: e, names: names, bound: map[string]*Term{}, pkg: calleePkg}
@@ -830,4 +848,70 @@ func (e *Env) collectInvFiltered(v Value, oldMap func(string, Sort) *Term, visit
 			e.collectInvFiltered(Value{K: VStruct, T: App(subFn(skey, f.Name()), SInt, v.T), Typ: f.Type()}, oldMap, visit)
 		}
 	}
+}
+
+
+// bytesBuiltin models bytes.Equal / bytes.HasSuffix / bytes.HasPrefix when the
+// second operand is a constant byte slice: the comparison is expanded
+// element-wise (quantifier-free).
+func (e *Env) bytesBuiltin(key string, x *ast.CallExpr, args []Value, rt types.Type) (Value, bool) {
+	if key != "bytes.Equal" && key != "bytes.HasSuffix" && key != "bytes.HasPrefix" {
+		return Value{}, false
+	}
+	if len(args) != 2 || args[0].K != VSlice || args[1].K != VSlice {
+		return Value{}, false
+	}
+	a, b := args[0], args[1]
+	n, ok := litInt(b.Len)
+	if !ok {
+		return Value{}, false
+	}
+	var content string
+	found := false
+	for ref, sym := range e.constGlobals {
+		if b.Ref.Op == "lit" && b.Ref.Name == ref {
+			content, found = e.w.litByName[sym], true
+		}
+	}
+	if !found {
+		// the constant may have flowed through a local variable: compare against Mem cells
+		arr := Select(e.mem(), a.Ref)
+		barr := Select(e.mem(), b.Ref)
+		var cs []*Term
+		start := a.Off
+		switch key {
+		case "bytes.Equal":
+			cs = append(cs, Eq(a.Len, b.Len))
+		case "bytes.HasSuffix":
+			cs = append(cs, Ge(a.Len, b.Len))
+			start = Add(a.Off, Sub(a.Len, b.Len))
+		default:
+			cs = append(cs, Ge(a.Len, b.Len))
+		}
+		if n > 8 {
+			return Value{}, false
+		}
+		for i := int64(0); i < n; i++ {
+			cs = append(cs, Eq(Select(arr, Add(start, IntLit(i))), Select(barr, Add(b.Off, IntLit(i)))))
+		}
+		e.w.trustedNote(key + " modelled as element-wise comparison for operands of constant length")
+		return Value{K: VBool, T: e.tmp(And(cs...)), Typ: rt}, true
+	}
+	arr := Select(e.mem(), a.Ref)
+	var cs []*Term
+	start := a.Off
+	switch key {
+	case "bytes.Equal":
+		cs = append(cs, Eq(a.Len, IntLit(n)))
+	case "bytes.HasSuffix":
+		cs = append(cs, Ge(a.Len, IntLit(n)))
+		start = Add(a.Off, Sub(a.Len, IntLit(n)))
+	default:
+		cs = append(cs, Ge(a.Len, IntLit(n)))
+	}
+	for i := int64(0); i < n; i++ {
+		cs = append(cs, Eq(Select(arr, Add(start, IntLit(i))), IntLit(int64(content[i]))))
+	}
+	e.w.trustedNote(key + " modelled as element-wise comparison against a constant operand")
+	return Value{K: VBool, T: e.tmp(And(cs...)), Typ: rt}, true
 }
